@@ -222,7 +222,8 @@ Print Assumptions stray_yield_meaning.
 Theorem interrupted_pending_meaning : forall cfg ops pre y i iopts,
     interrupted_pending cfg ops pre y i iopts <->
     exists reason mode, iopts = [("reason", vuri reason); ("mode", vstr mode)] /\
-    exists ops1 o ops2 outs, ops = ops1 ++ o :: ops2 /\ pre = trace cfg ops1 ++ EIn o :: map EOut outs /\
+    exists ops1 o ops2 outs outs2, ops = ops1 ++ o :: ops2 /\ pre = trace cfg ops1 ++ EIn o :: map EOut outs /\
+    snd (step (fst (run (init_realm cfg) ops1)) o) = outs ++ (y, RInterrupt i iopts) :: outs2 /\
     (exists ys, find_session (r_clients (fst (run (init_realm cfg) ops1))) y = Some ys /\
                 sess_feature ys "callee" f_call_canceling = true) /\
     exists pre0 x q opts proc a kw orc rid det rest,
